@@ -47,7 +47,7 @@ for p in props:
         'engine': 'simmon',
         'level_claimed': {
             'category': spec.get('level', 'exploration'),
-            'text': spec.get('level_text') or ('Held on the executions the monitors observed (counts in the evidence file): ' + spec['rule'][:600]),
+            'text': spec.get('level_text') or ('Held on the executions the monitors observed (counts in the evidence file): ' + spec['rule']),
             'design_ref': f'DESIGN.md section 3 ({pid})'},
         'level_note': '; '.join(spec.get('assumptions', [])) or 'generated workloads are well-posed (DESIGN 2.8)',
         'technique': TECH[pid],
